@@ -83,7 +83,9 @@ func (q isoQuad) key(rename func(int) int) string {
 		if s.bn >= 0 {
 			sb.WriteString("_")
 			sb.WriteString(strconv.Itoa(rename(s.bn)))
-		} else {
+		} else { // length-prefixed: the key stays injective whatever bytes the term contains
+			sb.WriteString(strconv.Itoa(len(s.ground)))
+			sb.WriteString(":")
 			sb.WriteString(s.ground)
 		}
 	}
